@@ -56,6 +56,9 @@ static void hex(char *o, size_t cap, const uint8_t *p, unsigned n) {
 
 /* distance used by the "via add" entry points (set per case) */
 static uint64_t g_add_d;
+/* entry 1 through the key-building macros (varintTaggedLenQuick +
+ * varintTaggedPut64FixedWidthQuick_) instead of the functions */
+static int g_quick;
 
 /* canonical tagged encoding through one of the library's entry points:
  *   0 Put64   1 Put64FixedWidth(varintTaggedLen(v))
@@ -67,6 +70,11 @@ static uint64_t g_add_d;
 static unsigned enc(uint8_t *dst, uint64_t v, int fixed) {
     memset(dst, 0xCC, 16);
     if (fixed == 1) {
+        if (g_quick) {
+            const varintWidth w = (varintWidth)varintTaggedLenQuick(v);
+            varintTaggedPut64FixedWidthQuick_(dst, v, w);
+            return w;
+        }
         return varintTaggedPut64FixedWidth(dst, v, varintTaggedLen(v));
     }
     if (fixed >= 2 && v <= (uint64_t)INT64_MAX) {
@@ -203,12 +211,17 @@ void vf_run(vf_rd *r, vf_report *rep) {
         static const uint64_t dd[4] = {1, 241, 70000, 1ULL << 33};
         g_add_d = dd[(head >> 4) & 3] + ((head >> 6) & 3);
     }
+    g_quick = fixed == 1 && ((head >> 4) & 1);
+    if (g_quick) {
+        vf_class("entry.quick-macros");
+    }
     uint64_t ta[4], tb[4];
     int nontriv = 0;
-    uint64_t h = vf_mix(arity, (uint64_t)fixed);
+    uint64_t h = vf_mix(arity, (uint64_t)fixed + 4 * (uint64_t)g_quick);
     vf_desc(rep, "arity=%u entry=%s", arity,
             fixed == 0   ? "Put64"
-            : fixed == 1 ? "Put64FixedWidth"
+            : fixed == 1 ? (g_quick ? "LenQuick+Put64FixedWidthQuick_"
+                                    : "Put64FixedWidth")
             : fixed == 2 ? "Put64+AddGrow(+d)"
                          : "Put64+AddGrow(-d)");
     for (unsigned i = 0; i < arity; i++) {
@@ -332,6 +345,7 @@ void vf_run(vf_rd *r, vf_report *rep) {
  * an equal first component at every pair of length-class edges */
 void vf_sweep(vf_report *rep) {
     size_t nb;
+    g_quick = 0;
     const uint64_t *b = vf_boundaries(&nb);
     uint64_t evals = 0;
     unsigned la, lb;
@@ -339,7 +353,10 @@ void vf_sweep(vf_report *rep) {
     for (size_t i = 0; i < nb && !rep->violated; i++) {
         for (int d = -300; d <= 300 && !rep->violated; d++) {
             uint64_t v = b[i] + (uint64_t)(int64_t)d;
-            for (int fixed = 0; fixed < 2 && !rep->violated; fixed++) {
+            for (int pass = 0; pass < 3 && !rep->violated; pass++) {
+                /* Put64, Put64FixedWidth, the quick macros */
+                const int fixed = pass ? 1 : 0;
+                g_quick = pass == 2;
                 if (!check_pair(rep, v, v, fixed, &la, &lb, &ob) ||
                     !check_pair(rep, v, v + 1, fixed, &la, &lb, &ob) ||
                     !check_pair(rep, v + 1, v, fixed, &la, &lb, &ob) ||
@@ -356,6 +373,7 @@ void vf_sweep(vf_report *rep) {
             }
         }
     }
+    g_quick = 0;
     /* every pair of length-class maxima and their successors */
     for (unsigned L = 1; L <= 9 && !rep->violated; L++) {
         for (unsigned M = 1; M <= 9 && !rep->violated; M++) {
